@@ -27,8 +27,14 @@ pub fn live_strategy() -> BoxedStrategy<Case> {
     // a worker that is late for a pending deferred dump while the next deferring request is already queued:
     // delete (marks a closed blob) - slow predicate - delete, spliced into a third of the histories
     let splice = prop_oneof![2 => Just(None), 1 => (any::<u16>(), 0u8..4, 0u8..4).prop_map(Some)];
-    (cfg, prop::collection::vec(op_strategy(&gen), 0..gen.max_ops), splice)
-        .prop_map(|(cfg, mut ops, splice)| {
+    // init() once more on the live object, in a tenth of the histories
+    let again = prop_oneof![9 => Just(None), 1 => any::<u16>().prop_map(Some)];
+    (cfg, prop::collection::vec(op_strategy(&gen), 0..gen.max_ops), splice, again)
+        .prop_map(|(cfg, mut ops, splice, again)| {
+            if let Some(pos) = again {
+                let at = crate::damage::pick(pos, ops.len() + 1);
+                ops.insert(at, Op::InitAgain);
+            }
             if let Some((pos, k1, k2)) = splice {
                 let at = crate::damage::pick(pos, ops.len() + 1);
                 let triple = [Op::Delete { key: k1, ts: 3, meta: 0, only_if: false }, Op::ForceUpdate(Pred::SlowNever), Op::Delete { key: k2, ts: 3, meta: 0, only_if: false }];
@@ -100,6 +106,12 @@ async fn blind(s: &mut Box<dyn Sut>, cfg: &Cfg, idx: usize, op: &Op, labels: &mu
         }
         Op::Free => {
             let _ = s.free_excess_resources().await;
+        }
+        Op::InitAgain => {
+            // (only when nothing is in flight: a second init re-reads the directory)
+            let _ = wait_quiet(s.as_ref(), true, Duration::from_secs(60)).await;
+            let _ = s.init_again().await;
+            labels.insert("init_called_again".into());
         }
         _ => {}
     }
